@@ -124,7 +124,9 @@ func runC04(c *Ctx) {
 		{"charset", []string{"bin<==>(ext#1(call<*>(load(global<repo/pkg/bech32.charset>), slice(" + lower + ", bin<+>(" + hl + ", 1), none))), nil)"},
 			[]string{"bin<!=>(ext#1(call<*>(load(global<repo/pkg/bech32.charset>), slice(" + lower + ", bin<+>(" + hl + ", 1), none))), nil)"}},
 		{"checksum-length", []string{"bin<>=>(len(" + data + "), 6)"}, []string{"bin<<>(len(" + data + "), 6)"}},
-		{"checksum-valid", []string{"call<*>(slice(" + lower + ", 0, " + hl + "), " + data + ")"}, []string{"un<!>(call<*>(slice(" + lower + ", 0, " + hl + "), " + data + "))"}},
+		// through the verification routine, or written out: polymod(expand(hrp) ‖ data) == 1 (the routines are decided under C16)
+		{"checksum-valid", []string{"call<*>(slice(" + lower + ", 0, " + hl + "), " + data + ")", "bin<==>(call<*>(concat(call<*>(slice(" + lower + ", 0, " + hl + ")), " + data + ")), 1)"},
+			[]string{"un<!>(call<*>(slice(" + lower + ", 0, " + hl + "), " + data + "))", "bin<!=>(call<*>(concat(call<*>(slice(" + lower + ", 0, " + hl + ")), " + data + ")), 1)"}},
 		{"regroup", []string{"bin<==>(ext#1(call<repo/pkg/bech32/internal/base32.Decode>(_, slice(" + data + ", 0, bin<->(len(" + data + "), 6)))), nil)"},
 			[]string{"bin<!=>(ext#1(call<repo/pkg/bech32/internal/base32.Decode>(_, slice(" + data + ", 0, bin<->(len(" + data + "), 6)))), nil)"}},
 	}
